@@ -300,3 +300,59 @@ def rule_row_order(ck, repo, R):
                 src(a.value.value.value) == table]
         ck.decide(len(back) == 1 and src(back[0].value.slice) == ovar, R, f'{f.qualname}:back-reference', [src(b) for b in back],
                   f'{f.qualname}: the second direction of a bond is no longer a reference to the object stored under the first direction', file=f.file, line=f.lineno, func=f.qualname)
+
+
+def rule_retry_flush(ck, repo, R, modules, floor):
+    """retry loops that add stereo labels with clean_cache=False must drop the stereo cache before every further pass"""
+    ck.rule(R, 'a loop that applies stereo marks with clean_cache=False and retries the ones that failed (NotChiral) calls flush_stereo_cache() (or '
+               'flush_cache()) inside the loop before every further pass: the retried marks are exactly those that become stereogenic through the '
+               'labels just added, which only a recomputed chiral set can see. A single flush after the loop makes every retry fail again and the '
+               'marks are dropped silently')
+    n_loops = 0
+    for f in repo.all_functions():
+        if f.module.name not in modules:
+            continue
+        for loop in ast.walk(f.node):
+            if not isinstance(loop, ast.While):
+                continue
+            deferred = [c for c in ast.walk(loop) if isinstance(c, ast.Call) and any(k.arg == 'clean_cache' and isinstance(k.value, ast.Constant) and k.value.value is False
+                                                                                     for k in c.keywords)]
+            if not deferred:
+                continue
+            n_loops += 1
+            key = f'{f.fq}:while@{src(loop.test)[:30]}'
+            # every way back to the loop head: explicit `continue` statements of this loop + falling off the end of the body
+            backs = []
+
+            def collect(body, inner_loop=False):
+                for i, s in enumerate(body):
+                    if isinstance(s, ast.Continue) and not inner_loop:
+                        backs.append((body, i, s))
+                    for fld in ('body', 'orelse', 'finalbody'):
+                        sub = getattr(s, fld, None)
+                        if isinstance(sub, list) and sub and isinstance(sub[0], ast.stmt):
+                            # the else-branch of an inner for belongs to the outer loop for `continue`
+                            collect(sub, inner_loop or (isinstance(s, (ast.For, ast.While)) and fld == 'body'))
+                    if isinstance(s, ast.Try):
+                        for h in s.handlers:
+                            collect(h.body, inner_loop)
+            collect(loop.body)
+            last = loop.body[-1]
+            falls = not isinstance(last, (ast.Break, ast.Continue, ast.Return, ast.Raise))
+
+            def is_flush(s):
+                return any(isinstance(c, ast.Call) and isinstance(c.func, ast.Attribute) and c.func.attr in ('flush_stereo_cache', 'flush_cache') for c in ast.walk(s))
+            bad = []
+            for body, i, s in backs:
+                if not any(is_flush(x) for x in body[:i]):
+                    bad.append(s)
+            if falls and not any(is_flush(x) for x in loop.body):
+                bad.append(last)
+            if not backs and not falls:
+                raise AnalysisError(f'{f.fq}: retry loop without a way back to its head; shape not recognised')
+            ck.decide(not bad, R, key, f'{len(backs) + int(falls)} way(s) back to the loop head, each after a flush',
+                      f'{f.qualname}: the retry loop re-enters a pass (line {bad[0].lineno if bad else 0}) without flush_stereo_cache() since the marks were applied with '
+                      f'clean_cache=False: the next pass still sees the chiral set computed before the new labels, every retried mark fails again and is dropped',
+                      file=f.file, line=bad[0].lineno if bad else loop.lineno, func=f.qualname, construct=src(loop.test))
+    ck.count(f'{R}: retry loops', n_loops)
+    ck.floor(R, floor)
